@@ -30,7 +30,7 @@ A64Init(P, args, nblocks) ==
                        ELSE UndefV]
   IN [pc |-> P.labels["asm_main"], regs |-> regs0,
       stk |-> <<>>, heap |-> <<>>, flags |-> NoFlagsV, nblocks |-> nblocks,
-      out |-> <<>>, status |-> "run", tag |-> "", why |-> "", result |-> UndefV, steps |-> 0, hi |-> 0]
+      out |-> <<>>, status |-> "run", tag |-> "", why |-> "", result |-> UndefV, steps |-> 0, hi |-> 0, strict |-> TRUE]
 
 A64Get(s, r) == IF r = "XZR" THEN ZeroV ELSE s.regs[r]
 A64Set(s, r, v) ==
@@ -122,7 +122,7 @@ A64Step(P, s) ==
       op == i.op
   IN
   IF op \in {"label", "mark"} THEN ANext1(s)
-  ELSE IF A64Unencodable(i) # "" THEN AFailS(s, "encode", "unencodable instruction: " \o A64Unencodable(i))
+  ELSE IF s.strict /\ A64Unencodable(i) # "" THEN AFailS(s, "encode", "unencodable instruction: " \o A64Unencodable(i))
   ELSE IF op \in {"ADD", "SUB", "MUL", "SDIV"} THEN
      LET x == A64Get(s, i.a[2].r)
          y == IF i.a[3].k = "imm" THEN IntV(i.a[3].w) ELSE A64Get(s, i.a[3].r)
